@@ -138,6 +138,10 @@ impl Board {
     }
 
     pub fn push_en_passant_target(&mut self, target_square: Bitboard) -> Bitboard {
+        // The key holds only the *current* target: retire the previous one first.
+        let previous_target = self.move_info.peek_en_passant_target();
+        self.position_info
+            .update_zobrist_hash_toggle_en_passant_target(previous_target);
         self.position_info
             .update_zobrist_hash_toggle_en_passant_target(target_square);
         self.move_info.push_en_passant_target(target_square)
@@ -151,6 +155,10 @@ impl Board {
         let target_square = self.move_info.pop_en_passant_target();
         self.position_info
             .update_zobrist_hash_toggle_en_passant_target(target_square);
+        // Restore the key of the target that becomes current again.
+        let restored_target = self.move_info.peek_en_passant_target();
+        self.position_info
+            .update_zobrist_hash_toggle_en_passant_target(restored_target);
         target_square
     }
 
